@@ -23,4 +23,5 @@ let table : (string * (Model.sx -> Model.sx)) list = [
   "system", Model.check_system;
   "validate", Model.check_validate;
   "evmcore", Model.check_evmcore;
+  "evmworld", Model.check_evmworld;
 ]
